@@ -5,7 +5,7 @@ CONSTANTS
   MaxTail = 0
   ElemTail = 0
   NestTail = 0
-  DeepTail = -1
+  DeepTail = 0
   Nums = {1, 2, 3}
   MaxOperands = 5
   WithNeg = FALSE
